@@ -1,7 +1,7 @@
 (* C01 - the scheduler never unloads/closes a runner a request is still using; a runner is shut down at most
    once; a runner that has been shut down is never handed to a request.   Theorems only. *)
 From Coq Require Import List ZArith NArith Bool.
-From V Require Import Sched.Lts Sched.Reach Sched.InvClose Sched.Examples.
+From V Require Import Sched.Lts Sched.Reach Sched.InvClose Sched.InvLock Sched.Thm Sched.Examples.
 Import ListNotations.
 
 (* In the event history of ANY run of the scheduler model (any configuration, any number of models and
@@ -15,3 +15,14 @@ Print Assumptions C01_close_once.
 Example C01_close_once_nonvacuous :
   exists s ev, run cfg_on (init_m 1) ex_load_unload = Some (s, ev) /\ n_close 0 ev = 1.
 Proof. vm_compute. eexists; eexists; split; reflexivity. Qed.
+
+(* For the repaired scheduler ([fixed c]: the three patches of fixes/ applied): in the event history of ANY run,
+   every runner handed to a request (a reply "success r") was not shut down at that moment (llama != nil). *)
+Theorem C01_no_grant_closed :
+  forall c m ls s ev q r cl, fixed c -> run c (init_m m) ls = Some (s, ev) -> In (EReply q (ROk r cl)) ev -> cl = false.
+Proof. intros c m ls s ev q r cl Hf H. eapply no_grant_closed; eauto. eapply run_Reach; eauto. Qed.
+Print Assumptions C01_no_grant_closed.
+
+Example C01_no_grant_closed_nonvacuous :
+  fixed cfg_on /\ exists s ev, run cfg_on (init_m 1) ex_load_unload = Some (s, ev) /\ In (EReply 0 (ROk 0 false)) ev.
+Proof. split. reflexivity. vm_compute. eexists; eexists; split. reflexivity. simpl. tauto. Qed.
